@@ -187,3 +187,20 @@ Definition model_meets_grammar (c : bool * launch * items) : bool :=
   let '(cov, l, body) := c in
   let '(o, p) := run_process_cov cov l body in
   grammar_from 0 (filter observable (notes p)) && negb (Nat.eqb (out_code o) 3).
+
+(* ---- instrument_file on one module "m": initial files, is the source decodable, what the real transformation
+   returned (None = declined), expected return code (0 = R0, 1 = R1, 2 = None) and expected final files *)
+From DV Require Import Engine.Files.
+Definition kind_code (k : kind) : nat := match k with KPy => 0 | KOrig => 1 | KJson => 2 end.
+Definition fs_of (l : list (nat * string)) : fs :=
+  fun k => if String.eqb (fst k) "m" then
+             (fix go (l : list (nat * string)) := match l with [] => None | (c, v) :: r => if Nat.eqb c (kind_code (snd k)) then Some v else go r end) l
+           else None.
+Definition ret_code (r : ret) : nat := match r with R0 => 0 | R1 => 1 | RNone => 2 end.
+Definition sopt_eqb (a b : option string) : bool :=
+  match a, b with Some x, Some y => String.eqb x y | None, None => true | _, _ => false end.
+Definition ok_files (c : list (nat * string) * (bool * (option (string * string) * (nat * list (nat * string))))) : bool :=
+  let '(before, (dec, (tr, (eret, after)))) := c in
+  let '(f', r) := instrument_file (fun _ => dec) (fun _ _ => tr) (fs_of before) "m" in
+  Nat.eqb (ret_code r) eret
+  && forallb (fun k => sopt_eqb (f' ("m", k)) (fs_of after ("m", k))) [KPy; KOrig; KJson].
